@@ -4,8 +4,10 @@
    `frontmatter`); `spec_split` is the line-based specification of Spec/FrontMatterSpec.v. *)
 From Coq Require Import List NArith Bool.
 From V Require Import Base.Bytes Base.Res Model.FrontMatter Spec.FrontMatterSpec Spec.EscapeSpec
-  Proofs.FrontMatterProofs.
+  Proofs.FrontMatterProofs Proofs.FrontMatterSpecProofs.
 Import ListNotations.
+From Coq Require Import Strings.String.
+Local Open Scope string_scope.
 Local Open Scope list_scope.
 
 (* what is returned is a split of the (BOM-stripped) input; the front matter is
@@ -66,3 +68,35 @@ Theorem C20_empty_front_matter_refuted :
   (exists fm rest, spec_split w_f25 w_d = Some (fm, rest)) /\ fm_class w_f25 w_d = 2%N.
 Proof. exact split_vs_spec_empty_fm_refuted. Qed.
 Print Assumptions C20_empty_front_matter_refuted.
+
+(* PARTIAL (the weakest precondition found): for every well-formed delimiter (non-empty, no CR / LF) and
+   every input outside the four decidable classes of fm_class — no bare CR inside the front matter the
+   spec finds, front matter not empty, no later CR LF delimiter line after an LF closer, no
+   delimiter-prefixed body line before an unterminated closer — the splitter returns exactly the
+   line-based spec.  Each excluded class is necessary (the four refutations above). *)
+Theorem C20_split_spec_partial : forall s d r, delim_ok d = true -> fm_class s d = 0%N ->
+  split_off_front_matter s d = Ok r -> r = spec_split s d.
+Proof. exact split_spec_partial. Qed.
+Print Assumptions C20_split_spec_partial.
+
+Theorem C20_split_spec_partial_utf8 : forall s d, utf8_valid s = true -> utf8_valid d = true ->
+  delim_ok d = true -> fm_class s d = 0%N ->
+  split_off_front_matter s d = Ok (spec_split s d).
+Proof. exact split_spec_partial_utf8. Qed.
+Print Assumptions C20_split_spec_partial_utf8.
+
+(* the documentation's reading (front matter ends at the end of the closing line) and the accepted one
+   differ by exactly one blank line moved from the rest to the front matter *)
+Theorem C20_spec_absorb_only_moves_blank : forall s d fm rest,
+  spec_split_doc s d = Some (fm, rest) ->
+  exists bl, (bl = [] \/ bl = [x0a] \/ bl = [x0d; x0a] \/ bl = [x0d]) /\
+    exists rest', rest = bl ++ rest' /\ spec_split s d = Some (fm ++ bl, rest').
+Proof. exact spec_absorb_only_moves_blank. Qed.
+Print Assumptions C20_spec_absorb_only_moves_blank.
+
+(* non-vacuity of the partial theorem: a CRLF document with a blank line after the closer *)
+Example C20_partial_example :
+  let s := B "---" ++ [x0d; x0a] ++ B "title: x" ++ [x0d; x0a] ++ B "---" ++ [x0d; x0a; x0d; x0a] ++ B "text" in
+  delim_ok w_d = true /\ fm_class s w_d = 0%N /\
+  exists fm, split_off_front_matter s w_d = Ok (Some (fm, B "text")) /\ spec_split s w_d = Some (fm, B "text").
+Proof. split; [reflexivity|]. split; [vm_compute; reflexivity|]. eexists. split; vm_compute; reflexivity. Qed.
